@@ -136,3 +136,20 @@
        :pattern ((bytes.beIntFrom b j e))))
   :induct (- e j) :reveal (bytes.pow256) :inst (b j (- e 1))
   :unfold ((bytes.beIntFrom b j e)))
+
+; decoding the n-byte big-endian form of v (v < 256^n) gives v back
+(lemma beInt_of_beByte
+  (forall ((b (Array Int Int)) (j Int) (n Int) (v Int))
+    (=> (and (<= 0 n) (<= 0 v) (< v (bytes.pow256 n))
+             (forall ((t Int)) (=> (and (<= j t) (< t (+ j n))) (= (select b t) (bytes.beByte v n (- t j))))))
+        (= (bytes.beIntFrom b j (+ j n)) v)))
+  :induct n :reveal (bytes.pow256)
+  :unfold ((bytes.beIntFrom b j (+ j n)) (bytes.beByte v n (- n 1)))
+  :lemmas (beByte_shiftdown)
+  :inst (b j (- n 1) (div v 256)))
+; dropping the last byte: the first n-1 bytes of the n-byte form of v are the (n-1)-byte form of v div 256
+(lemma beByte_shiftdown
+  (forall ((v Int) (n Int) (k Int))
+    (! (=> (and (<= 0 k) (< k (- n 1))) (= (bytes.beByte v n k) (bytes.beByte (div v 256) (- n 1) k)))
+       :pattern ((bytes.beByte v n k))))
+  :unfold ((bytes.beByte v n k)))
